@@ -1,10 +1,11 @@
+import os
 subs=[("idle","stepIdle",True),("begin","stepBegin",False),("commit","stepCommit",False),("abort","stepAbort",False),("after","stepAfter",True),("use","stepUse",False),("sess","stepSess",False),("close","stepClose",False),("exp","stepExp",False)]
 pcname={"idle":".idle","after":".after"}
 out='''/-
   Lungo.Proofs.ConcProgress — progress: invariants about Close / the expiry actor and the
   no-deadlock argument.  (Per-sub-machine lemmas generated mechanically.)
 -/
-import Lungo.Proofs.ConcUnshared
+import Lungo.Proofs.ConcInvDefs
 namespace Lungo.Conc
 
 /-- control states of the expiry goroutine (actor 0): it never becomes an idle client -/
@@ -54,20 +55,27 @@ theorem xinv_{name} {{s s' : State}} {{a : ActorId}} {{c : Choice}} (g : Xinv s)
     · clear x2 x3
       by_cases h0 : (0 : Nat) = a
       · subst h0; (try x_simp); grind
-      · have h0' : ¬ a = 0 := fun h => h0 h.symm
-        (try x_simp); grind
-    · have := x2 b
+      · (try simp only [State.put, State.putS, State.finish, State.write, upd_apply, if_neg h0])
+        first
+        | exact x1
+        | (have h0' : ¬ a = 0 := fun h => h0 h.symm
+           (try x_simp); grind)
+    · have hx2b := x2 b
       clear x2 x3
       by_cases hba : b = a
       · subst hba; (try x_simp); grind
       · (try simp only [State.put, State.putS, State.finish, State.write, upd_apply, if_neg hba])
-        (try x_simp); grind
-    · have := x3 b hb
+        first
+        | exact hx2b
+        | ((try x_simp); grind)
+    · have hx3b := x3 b hb
       clear x2 x3
       by_cases hba : b = a
       · subst hba; (try x_simp); grind
       · (try simp only [State.put, State.putS, State.finish, State.write, upd_apply, if_neg hba])
-        (try x_simp); grind)
+        first
+        | exact hx3b
+        | ((try x_simp); grind))
 '''
 out+='''
 theorem xinv_step {s s' : State} {a : ActorId} {c : Choice} (g : Xinv s)
@@ -90,4 +98,4 @@ theorem xinv_reachable {n : Nat} {s : State} (h : Reachable n s) : Xinv s := by
 
 end Lungo.Conc
 '''
-open('/root/wt/a4/lean/Lungo/Proofs/ConcProgress.lean','w').write(out)
+open(os.path.join(os.path.dirname(os.path.abspath(__file__)),'..','Lungo','Proofs')+'/ConcProgress.lean','w').write(out)
